@@ -1,7 +1,6 @@
 """C20 -- a create option means the same via command-line flag, configuration file or library keyword."""
 import os
 import re
-import sys
 import json
 import time
 import shutil
